@@ -4,7 +4,7 @@
    `B` the bound set (empty when Expr::Freeze calls freeze). *)
 From Coq Require Import ZArith String List Bool.
 From NV Require Import Common.Outcome Lang.FreezeLang Lang.Freeze Lang.FreezeSpec Lang.Freeze_proofs
-  Lang.FreezeRel Lang.FreezeDbc Lang.FreezePres_proofs Lang.FreezePres_example.
+  Lang.FreezeRel Lang.FreezeDbc Lang.FreezePres_proofs Lang.FreezeRefl_proofs Lang.FreezePres_example.
 Import ListNotations.
 Open Scope string_scope.
 
@@ -72,6 +72,22 @@ Theorem C17_reassignment_keeps_relation : forall (n0 cur0 : nat) (look : name ->
   assign noprot st' f x w = UOk st'' -> srel n0 cur0 look resl mutl st st''.
 Proof. exact srel_reassign. Qed.
 Print Assumptions C17_reassignment_keeps_relation.
+
+(* the hypotheses are met by every store whose closures are ordinary source code: a well-formed
+   store is related to itself (and, taken as the freeze-time store, agrees with itself) as soon as
+   the bodies of the closures it holds mention no identifier named in mutl, contain no frozen
+   closure and declare nothing in the first iteratee of a for loop (`selfok`), and their
+   environments are frames of the store (`valok`, `frame_ok`) *)
+Theorem C17_store_related_to_itself : forall (mutl : list name) (FV : name -> option val) (n0 cur0 : nat)
+    (resl : list name) (st : state),
+  cur0 < n0 -> n0 <= length (frames st) -> wf_frames (frames st) ->
+  Forall (frame_ok mutl (length (frames st))) (frames st) ->
+  srel n0 cur0 FV resl mutl st st /\
+  agree n0 cur0 (lookup (frames st) cur0) resl mutl (frames st).
+Proof.
+  intros. split; [apply srel_refl_ok; auto | apply agree_refl_ok; auto].
+Qed.
+Print Assumptions C17_store_related_to_itself.
 
 (* for every argument tuple: related function values (a lambda and its frozen form, by the theorem
    above) applied later, in related stores, to related arguments: `post` = either the original call
